@@ -387,7 +387,7 @@ func (d *TD) deliverToBots(t *pt.Table) {
 		h, ok := d.bots[p.PlayerID]
 		if !ok {
 			a := actor.NewActor()
-			ad := actor.NewTableEngineAdapter(realEngine(d.te), t)
+			ad := actor.NewTableEngineAdapter(&recEngine{TableEngine: realEngine(d.te), d: d}, t)
 			a.SetAdapter(ad)
 			bot := actor.NewBotRunner(p.PlayerID)
 			id := p.PlayerID
@@ -423,8 +423,16 @@ func (d *TD) playHandBots() string {
 	}
 	dl := time.Now().Add(20 * time.Second)
 	opened := false
+	tick := 0
 	for time.Now().Before(dl) {
 		st := d.table().State
+		tick++
+		if d.sc.Seed%2 == 0 && tick%6 == 0 && len(st.PlayerStates) > 0 && st.Status == pt.TableStateStatus_TableGamePlaying {
+			// a table-level event in the middle of the hand: the same hand state is published again with a higher table
+			// serial (an add-on of nothing changes no chips)
+			p := st.PlayerStates[d.rng.Intn(len(st.PlayerStates))]
+			d.te.PlayerRedeemChips(pt.JoinPlayer{PlayerID: p.PlayerID, RedeemChips: 0, Seat: -1})
+		}
 		if st.GameCount > gc0 {
 			opened = true
 			if st.Status == pt.TableStateStatus_TableGameStandby || st.Status == pt.TableStateStatus_TablePausing {
